@@ -333,6 +333,8 @@ Definition nb_symmetric (nb : list (list nat)) : bool :=
   let E := @edges nb in
   forallb (fun p => Nat.eqb (count_pair p E) (count_pair (snd p, fst p) E)) E.
 Definition nb_in_range (n : nat) (nb : list (list nat)) : bool := forallb (forallb (fun k => (k <? n)%nat)) nb.
+Definition nb_ok (nb : list (list nat)) : bool := nb_in_range (length nb) nb && nb_symmetric nb.
+Definition wnb_ok {A} (w : list A) (nb : list (list nat)) : bool := Nat.eqb (length nb) (length w) && nb_ok nb.
 Fixpoint nodupb (l : list nat) : bool :=
   match l with [] => true | a :: t => negb (existsb (Nat.eqb a) t) && nodupb t end.
 Definition scheme_wf (s : scheme) (o : lobj) : bool :=
